@@ -1,6 +1,7 @@
 import Ruint.Model.Redc
 import Ruint.Gen.RedcConsts
 import Ruint.Gen.WordsRedcLoops
+import Ruint.Gen.WordsUintMod
 /-! Driver for C11: evaluates the model (`Ruint.Redc.*` on limb lists, base `W`, thresholds from the generated
     constants) and the spec (`a·b·R⁻¹ mod m` on ℕ, `R = 2^(64·N)`, inverse by extended Euclid on ℤ). -/
 open Ruint Ruint.Redc Ruint.Gen.RedcConsts
@@ -51,7 +52,11 @@ def handle (args : List String) (_impl : String) : String × String :=
     | "umulredc" =>
         let bits := n; let l := nlimbs bits
         let sp := if bits = 0 then "0" else if decide (m < 2 ^ bits) then spec l a b m inv else "any"
-        (outO (uintMulRedc keepMul bits inv (toLimbs l a) (toLimbs l b) (toLimbs l m)), sp)
+        -- when the model succeeds: the wrapper GENERATED from src/modular.rs (`Props/C11.gen_uint_mul_redc_eq`)
+        let r := match uintMulRedc keepMul bits inv (toLimbs l a) (toLimbs l b) (toLimbs l m) with
+          | some _ => Ruint.Gen.uint_mul_redc (l + 1) bits l (toLimbs l a) (toLimbs l b) (toLimbs l m) inv
+          | none => none
+        (outO r, sp)
     | _ => ("bad-op", "bad-op")
   | [op, ns, as, ms, is] =>
     let n := parseDec ns
@@ -66,7 +71,10 @@ def handle (args : List String) (_impl : String) : String × String :=
     | "usqredc" =>
         let bits := n; let l := nlimbs bits
         let sp := if bits = 0 then "0" else if decide (m < 2 ^ bits) then spec l a a m inv else "any"
-        (outO (uintSquareRedc keepSq bits inv (toLimbs l a) (toLimbs l m)), sp)
+        let r := match uintSquareRedc keepSq bits inv (toLimbs l a) (toLimbs l m) with
+          | some _ => Ruint.Gen.uint_square_redc (l + 1) bits l (toLimbs l a) (toLimbs l m) inv
+          | none => none
+        (outO r, sp)
     | _ => ("bad-op", "bad-op")
   | _ => ("bad-op", "bad-op")
 
